@@ -11,10 +11,13 @@ to its first two entries exactly when the READER'S OWN expansion of those two en
   C02_data_units      — `data` carries the data token (dtype, shape, element bytes: h5py contract H2) and the units;
   C02_labels          — the label vector is stored in order under the name `_labels_` as the last dim dataset, and
                         `C14_label_index` shows label i addresses slice i.
-The composition of these through the dataset lookups of `_get_constructor_args` (dim<n> naming) is exercised by the
-correspondence (bit-exact dim values at file level and after read-back), not proved: see the level note.
+`C02_roundtrip` composes them through the dataset lookups of `_get_constructor_args` (`dim<n>` naming, stack detection,
+label recovery) and the constructor: reading what `to_h5` wrote returns an Array equal to the saved one in every field,
+each axis verbatim or numpy-equal; `C02_ctor_meets_hypotheses` shows every Array the constructor returns is in its domain.
 -/
 import EmdProps.C14
+import EmdProofs.Basic
+import Std.Data.String.ToNat
 
 set_option linter.unusedSimpArgs false
 
@@ -94,6 +97,419 @@ example : (match exA with
     | .error _ => false) = true := by decide +kernel
 example : (match exA with
     | .ok a => (a.toBody realOps).map (fun kv => match kv.2 with | .dataset _ (.nums xs) => xs.length | _ => 0) == [0, 2, 2]
+    | .error _ => false) = true := by decide +kernel
+
+/-! ## The composite round trip: `fromBody (toBody a) = a` up to numpy equality of compressed axes -/
+
+theorem autoName_inj (p : String) (i j : Nat) (h : autoName p i = autoName p j) : i = j := by
+  simp only [autoName] at h
+  have h' := congrArg String.toList h
+  simp only [String.toList_append] at h'
+  have := List.append_cancel_left h'
+  exact Nat.repr_injective (String.toList_inj.mp this)
+
+theorem data_ne_dim (i : Nat) : autoName "dim" i ≠ "data" := by
+  intro h
+  have h' := congrArg String.toList h
+  simp only [autoName, String.toList_append] at h'
+  have : ("dim".toList ++ (toString i).toList)[1]? = ("data".toList)[1]? := by rw [h']
+  simp at this
+
+/-- lookup in a table generated from a range by an injective key -/
+theorem alookup_range_map {β : Type} (key : Nat → String) (val : Nat → β) (hinj : ∀ i j, key i = key j → i = j) :
+    ∀ (r n : Nat), n < r → alookup (key n) ((List.range r).map (fun i => (key i, val i))) = some (val n)
+  | 0, n, h => by omega
+  | r + 1, n, h => by
+    rw [List.range_succ, List.map_append, alookup_append]
+    by_cases hn : n < r
+    · rw [alookup_range_map key val hinj r n hn]
+    · have : n = r := by omega
+      subst this
+      have hnone : alookup (key n) ((List.range n).map (fun i => (key i, val i))) = none := by
+        apply alookup_none_of_not_mem
+        simp only [akeys, List.map_map, List.mem_map, List.mem_range, Function.comp]
+        rintro ⟨i, hi, e⟩
+        have := hinj _ _ e
+        omega
+      rw [hnone]
+      simp [alookup]
+
+theorem alookup_range_map_none {β : Type} (key : Nat → String) (val : Nat → β) (hinj : ∀ i j, key i = key j → i = j)
+    (r n : Nat) (h : r ≤ n) : alookup (key n) ((List.range r).map (fun i => (key i, val i))) = none := by
+  apply alookup_none_of_not_mem
+  simp only [akeys, List.map_map, List.mem_map, List.mem_range, Function.comp]
+  rintro ⟨i, hi, e⟩
+  have := hinj _ _ e
+  omega
+
+/-- what `to_h5` stores for axis n -/
+def storedDim (ops : NumOps) (a : ArrayVal) (n : Nat) : Obj :=
+  let d := a.dims.getD n []
+  Obj.dataset [("name", .str (a.dimNames.getD n "")), ("units", .str (a.dimUnits.getD n ""))]
+    (.nums (storeVec ops (if dimIsLinear ops d (a.shape.getD n 0) then d.take 2 else d)))
+
+theorem toBody_eq (ops : NumOps) (a : ArrayVal) :
+    a.toBody ops = [("data", Obj.dataset [("units", .str a.units)] (.tok a.dataTok))] ++
+      ((List.range a.rank).map (fun n => (autoName "dim" n, storedDim ops a n)) ++
+      (if a.isStack then [(autoName "dim" a.rank, Obj.dataset [("name", .str "_labels_")] (.strs a.labels))] else [])) := by
+  simp only [ArrayVal.toBody, storedDim, List.append_assoc]
+
+/-- the dataset the reader finds for axis n -/
+theorem alookup_dim (ops : NumOps) (a : ArrayVal) (n : Nat) (h : n < a.rank) :
+    alookup (autoName "dim" n) (a.toBody ops) = some (storedDim ops a n) := by
+  rw [toBody_eq, alookup_append]
+  have h1 : alookup (autoName "dim" n) [("data", Obj.dataset [("units", .str a.units)] (.tok a.dataTok))] = none := by
+    simp [alookup, (data_ne_dim n).symm]
+  rw [h1, alookup_append, alookup_range_map (autoName "dim") (storedDim ops a) (autoName_inj "dim") a.rank n h]
+
+/-- the dataset after the last axis: the labels of a stack, nothing otherwise -/
+theorem alookup_labels (ops : NumOps) (a : ArrayVal) :
+    alookup (autoName "dim" a.rank) (a.toBody ops) =
+      if a.isStack then some (Obj.dataset [("name", .str "_labels_")] (.strs a.labels)) else none := by
+  rw [toBody_eq, alookup_append]
+  have h1 : alookup (autoName "dim" a.rank) [("data", Obj.dataset [("units", .str a.units)] (.tok a.dataTok))] = none := by
+    simp [alookup, (data_ne_dim a.rank).symm]
+  rw [h1, alookup_append, alookup_range_map_none (autoName "dim") (storedDim ops a) (autoName_inj "dim") a.rank a.rank (Nat.le_refl _)]
+  cases a.isStack <;> simp [alookup]
+
+/-! ### the constructor succeeds, and what it builds -/
+
+theorem setDim_ok (ops : NumOps) (a : ArrayVal) (n : Nat) (d : DimArg) (u nm : String) (v : List Num)
+    (hn : n < a.rank) (hv : unpackDim ops d (a.shape.getD n 0) = .ok v) :
+    setDim ops a n d (some u) (some nm) =
+      .ok { a with dims := setNth a.dims n v, dimUnits := setNth a.dimUnits n u, dimNames := setNth a.dimNames n nm } := by
+  have : ¬ n ≥ a.rank := by omega
+  simp only [setDim, this, if_false, hv, bind, Except.bind, pure, Except.pure]
+
+theorem fold_setDim_ok (ops : NumOps) (args : Nat → DimArg) (us ns : Nat → String) (v : Nat → List Num) :
+    ∀ (is : List Nat) (a : ArrayVal), LenInv a → is.Nodup → (∀ i ∈ is, i < a.rank) →
+    (∀ i ∈ is, unpackDim ops (args i) (a.shape.getD i 0) = .ok (v i)) →
+    ∃ a', is.foldlM (fun a i => setDim ops a i (args i) (some (us i)) (some (ns i))) a = .ok a' ∧
+      LenInv a' ∧ a'.dataShape = a.dataShape ∧ a'.isStack = a.isStack ∧ a'.labels = a.labels ∧ a'.units = a.units ∧
+      a'.dataTok = a.dataTok ∧
+      (∀ i ∈ is, a'.dims.getD i [] = v i ∧ a'.dimUnits.getD i "" = us i ∧ a'.dimNames.getD i "" = ns i) ∧
+      (∀ m, m ∉ is → a'.dims.getD m [] = a.dims.getD m [] ∧ a'.dimUnits.getD m "" = a.dimUnits.getD m "" ∧
+        a'.dimNames.getD m "" = a.dimNames.getD m "")
+  | [], a, hinv, _, _, _ => ⟨a, rfl, hinv, rfl, rfl, rfl, rfl, rfl, fun i hi => by simp at hi, fun m _ => ⟨rfl, rfl, rfl⟩⟩
+  | i :: rest, a, hinv, hnd, hlt, hv => by
+    simp only [List.nodup_cons] at hnd
+    have hi := hlt i List.mem_cons_self
+    let a1 : ArrayVal := { a with dims := setNth a.dims i (v i), dimUnits := setNth a.dimUnits i (us i),
+                                  dimNames := setNth a.dimNames i (ns i) }
+    have h1 : setDim ops a i (args i) (some (us i)) (some (ns i)) = .ok a1 :=
+      setDim_ok ops a i (args i) (us i) (ns i) (v i) hi (hv i List.mem_cons_self)
+    have hshape : a1.shape = a.shape := rfl
+    have hrank : a1.rank = a.rank := rfl
+    have hinv1 : LenInv a1 := by
+      obtain ⟨l1, l2, l3⟩ := hinv
+      exact ⟨by simp [a1, setNth_length]; exact l1, by simp [a1, setNth_length]; exact l2, by simp [a1, setNth_length]; exact l3⟩
+    obtain ⟨a', hf, hinv', hs, hst, hl, hu, ht, hall, hother⟩ := fold_setDim_ok ops args us ns v rest a1 hinv1 hnd.2
+      (fun j hj => by rw [hrank]; exact hlt j (List.mem_cons_of_mem _ hj))
+      (fun j hj => by rw [hshape]; exact hv j (List.mem_cons_of_mem _ hj))
+    refine ⟨a', ?_, hinv', hs, hst, hl, hu, ht, ?_, ?_⟩
+    · simp only [List.foldlM, h1, bind, Except.bind]; exact hf
+    · intro j hj
+      simp only [List.mem_cons] at hj
+      cases hj with
+      | inr hr => exact hall j hr
+      | inl he =>
+        subst he
+        obtain ⟨o1, o2, o3⟩ := hother j hnd.1
+        obtain ⟨l1, l2, l3⟩ := hinv
+        refine ⟨o1.trans ?_, o2.trans ?_, o3.trans ?_⟩
+        · exact setNth_same [] a.dims j (v j) (by rw [l1]; exact hi)
+        · exact setNth_same "" a.dimUnits j (us j) (by rw [l2]; exact hi)
+        · exact setNth_same "" a.dimNames j (ns j) (by rw [l3]; exact hi)
+    · intro m hm
+      simp only [List.mem_cons, not_or] at hm
+      obtain ⟨o1, o2, o3⟩ := hother m hm.2
+      exact ⟨o1.trans (setNth_other [] a.dims i m (v i) hm.1), o2.trans (setNth_other "" a.dimUnits i m (us i) hm.1),
+        o3.trans (setNth_other "" a.dimNames i m (ns i) hm.1)⟩
+
+theorem padTo_exact {α : Type} (n : Nat) (xs : List α) (fill : Nat → α) (h : xs.length = n) : padTo n xs fill = xs := by
+  unfold padTo
+  have : ¬ xs.length < n := by omega
+  simp only [this, if_false]
+  rw [← h]; exact List.take_length
+
+theorem getD_default {α : Type} (l : List α) (i : Nat) (d1 d2 : α) (h : i < l.length) : l.getD i d1 = l.getD i d2 := by
+  simp [List.getD_eq_getElem?_getD, List.getElem?_eq_getElem h]
+
+theorem initArray_fields (tok : String) (dataShape : List Nat) (units : String) (lab : LabelArg) :
+    (initArray tok dataShape units lab).dataTok = tok ∧ (initArray tok dataShape units lab).dataShape = dataShape ∧
+    (initArray tok dataShape units lab).units = units ∧ (initArray tok dataShape units lab).isStack = labIsStack lab := by
+  simp [initArray]
+
+/-- `Array(**args)` with one dim vector, unit and name per axis: succeeds when every vector unpacks, and holds exactly
+    the unpacked vectors, the given units and the given names -/
+theorem mkArray_ok (ops : NumOps) (tok : String) (dataShape : List Nat) (units : String) (ds : List DimArg)
+    (nms uns : List String) (lab : LabelArg) (v : Nat → List Num)
+    (hst : (labIsStack lab && dataShape.isEmpty) = false)
+    (hl1 : ds.length = (initArray tok dataShape units lab).rank) (hl2 : nms.length = (initArray tok dataShape units lab).rank)
+    (hl3 : uns.length = (initArray tok dataShape units lab).rank)
+    (hnn : ∀ i, i < (initArray tok dataShape units lab).rank → ∃ xs, ds.getD i .none = .vec xs)
+    (hv : ∀ i, i < (initArray tok dataShape units lab).rank →
+      unpackDim ops (ds.getD i .none) ((initArray tok dataShape units lab).shape.getD i 0) = .ok (v i)) :
+    ∃ a, mkArray ops tok dataShape units (some ds) (some nms) (some uns) lab = .ok a ∧
+      a.dataTok = tok ∧ a.dataShape = dataShape ∧ a.units = units ∧ a.isStack = labIsStack lab ∧
+      a.labels = (initArray tok dataShape units lab).labels ∧ LenInv a ∧
+      (∀ i, i < (initArray tok dataShape units lab).rank →
+        a.dims.getD i [] = v i ∧ a.dimUnits.getD i "" = uns.getD i "" ∧ a.dimNames.getD i "" = nms.getD i "") := by
+  generalize ha0 : initArray tok dataShape units lab = a0 at *
+  obtain ⟨f1, f2, f3, f4⟩ := initArray_fields tok dataShape units lab
+  rw [ha0] at f1 f2 f3 f4
+  have hinv0 : LenInv a0 := ha0 ▸ initArray_inv tok dataShape units lab
+  have hargs : ctorDimArgs a0.rank (some ds) = ds := by simp only [ctorDimArgs]; exact padTo_exact _ _ _ hl1
+  have hunits : ∀ i, i < a0.rank → (ctorUnits a0.rank ds (some uns)).getD i "unknown" = uns.getD i "" := by
+    intro i hi
+    have hlen : i < (ctorUnits a0.rank ds (some uns)).length := by simp [ctorUnits]; exact hi
+    simp only [ctorUnits, padTo_exact _ _ _ hl3]
+    rw [List.getD_eq_getElem?_getD, List.getElem?_map, List.getElem?_range hi]
+    obtain ⟨xs, hx⟩ := hnn i hi
+    simp only [Option.map_some, Option.getD_some, hx]
+    exact getD_default uns i _ _ (by rw [hl3]; exact hi)
+  have hnames : ∀ i, i < a0.rank → (ctorNames a0.rank (some nms)).getD i "" = nms.getD i "" := by
+    intro i _
+    simp only [ctorNames, padTo_exact _ _ _ hl2]
+  obtain ⟨a, hf, hinv, hs, hstk, hl, hu, ht, hall, _⟩ :=
+    fold_setDim_ok ops (fun i => ds.getD i .none) (fun i => (ctorUnits a0.rank ds (some uns)).getD i "unknown")
+      (fun i => (ctorNames a0.rank (some nms)).getD i "") v (List.range a0.rank) a0 hinv0 (range_nodup _)
+      (fun i hi => List.mem_range.mp hi) (fun i hi => hv i (List.mem_range.mp hi))
+  refine ⟨a, ?_, ht.trans f1, hs.trans f2, hu.trans f3, hstk.trans f4, hl, hinv, ?_⟩
+  · simp only [mkArray, hst, Bool.false_eq_true, if_false, ha0, hargs, buildDims]
+    exact hf
+  · intro i hi
+    obtain ⟨h1, h2, h3⟩ := hall i (List.mem_range.mpr hi)
+    exact ⟨h1, h2.trans (hunits i hi), h3.trans (hnames i hi)⟩
+
+/-! ### `_get_constructor_args` on what `to_h5` wrote -/
+
+theorem mapM_ok {α β : Type} (f : α → R β) (g : α → β) : ∀ (l : List α), (∀ x ∈ l, f x = .ok (g x)) → l.mapM f = .ok (l.map g)
+  | [], _ => rfl
+  | x :: xs, h => by
+    rw [List.mapM_cons, h x List.mem_cons_self, mapM_ok f g xs (fun y hy => h y (List.mem_cons_of_mem _ hy))]
+    rfl
+
+theorem getD_map_range {β : Type} (f : Nat → β) (r i : Nat) (d : β) (h : i < r) : ((List.range r).map f).getD i d = f i := by
+  rw [List.getD_eq_getElem?_getD, List.getElem?_map, List.getElem?_range h]; rfl
+
+/-- what is stored for axis n (before numpy's int/float coercion of mixed sequences) -/
+def storedVec (ops : NumOps) (a : ArrayVal) (n : Nat) : List Num :=
+  if dimIsLinear ops (a.dims.getD n []) (a.shape.getD n 0) then (a.dims.getD n []).take 2 else a.dims.getD n []
+
+/-- the dim vectors are what numpy arrays are: all ints or all floats, so storing them changes no entry -/
+def PlainDims (ops : NumOps) (a : ArrayVal) : Prop := ∀ n, n < a.rank → storeVec ops (storedVec ops a n) = storedVec ops a n
+
+theorem storedDim_eq (ops : NumOps) (a : ArrayVal) (n : Nat) (hp : storeVec ops (storedVec ops a n) = storedVec ops a n) :
+    storedDim ops a n = Obj.dataset [("name", .str (a.dimNames.getD n "")), ("units", .str (a.dimUnits.getD n ""))]
+      (.nums (storedVec ops a n)) := by
+  simp only [storedDim, storedVec] at hp ⊢
+  rw [hp]
+
+/-- the reader's expansion of what is stored for axis n -/
+theorem stored_unpacks (ops : NumOps) (a : ArrayVal) (n : Nat) (hd : DimOK a n) :
+    ∃ e, unpackDim ops (.vec (storedVec ops a n)) (a.shape.getD n 0) = .ok e ∧
+      (e = a.dims.getD n [] ∨ vecEq ops (a.dims.getD n []) e = true) := by
+  unfold storedVec
+  by_cases hl : dimIsLinear ops (a.dims.getD n []) (a.shape.getD n 0) = true
+  · obtain ⟨e, h1, h2, _⟩ := C02_axis_compressed ops _ _ hl
+    exact ⟨e, by simp only [hl, if_true]; exact h1, Or.inr h2⟩
+  · simp only [hl, Bool.false_eq_true, if_false]
+    exact ⟨_, C02_axis_full ops _ _ hd, Or.inl rfl⟩
+
+/-- C02, THE ROUND TRIP.  For every Array value the constructor can produce (`LenInv`, `DimOK`: C14), whose dim vectors
+    are numpy arrays (`PlainDims`), whose labels are as many as its depth, and whose last dim name is not the reserved
+    `_labels_` unless it is a stack (known finding C15-K3): reading what `to_h5` wrote succeeds and returns an Array
+    with the same data token (dtype, shape, bytes: contract H2), data shape, units, stack flag, labels in order, dim
+    units and dim names, and for every axis a dim vector that is the saved one verbatim (uncompressed axis) or
+    elementwise numpy-equal to it (compressed axis: whatever the ramp arithmetic rounds to, the writer compressed only
+    because the reader's own expansion reproduces the vector). -/
+theorem C02_roundtrip (ops : NumOps) (a : ArrayVal) (hinv : LenInv a) (hdim : ∀ n, n < a.rank → DimOK a n)
+    (hplain : PlainDims ops a)
+    (hstack : a.isStack = true → a.dataShape ≠ [] ∧ a.labels.length = a.depth)
+    (hnostack_labels : a.isStack = false → a.labels = [])
+    (hnolabel : a.isStack = false → ∀ n, n + 1 = a.rank → a.dimNames.getD n "" ≠ "_labels_") :
+    ∃ b, ArrayVal.fromBody ops a.dataShape (a.toBody ops) = .ok b ∧
+      b.dataTok = a.dataTok ∧ b.dataShape = a.dataShape ∧ b.units = a.units ∧ b.isStack = a.isStack ∧
+      b.labels = a.labels ∧ b.dimUnits = a.dimUnits ∧ b.dimNames = a.dimNames ∧
+      ∀ n, n < a.rank → (b.dims.getD n [] = a.dims.getD n [] ∨ vecEq ops (a.dims.getD n []) (b.dims.getD n []) = true) := by
+  -- the expansion per axis
+  let v : Nat → List Num := fun n => match unpackDim ops (.vec (storedVec ops a n)) (a.shape.getD n 0) with
+    | .ok e => e
+    | .error _ => []
+  have hv : ∀ n, n < a.rank → unpackDim ops (.vec (storedVec ops a n)) (a.shape.getD n 0) = .ok (v n) ∧
+      (v n = a.dims.getD n [] ∨ vecEq ops (a.dims.getD n []) (v n) = true) := by
+    intro n hn
+    obtain ⟨e, h1, h2⟩ := stored_unpacks ops a n (hdim n hn)
+    have : v n = e := by simp only [v, h1]
+    rw [this]; exact ⟨h1, h2⟩
+  -- the label argument the reader reconstructs
+  let lab : LabelArg := if a.isStack then .given a.labels else .none
+  have hlabst : labIsStack lab = a.isStack := by simp only [lab]; cases a.isStack <;> rfl
+  -- shape bookkeeping
+  have hrank : (if a.isStack then a.dataShape.length - 1 else a.dataShape.length) = a.rank := by
+    simp only [ArrayVal.rank, ArrayVal.shape]
+    cases a.isStack <;> simp
+  -- the constructor call
+  have hinit_rank : (initArray a.dataTok a.dataShape a.units lab).rank = a.rank := by
+    simp only [initArray, ArrayVal.rank, ArrayVal.shape, hlabst]
+  have hinit_shape : (initArray a.dataTok a.dataShape a.units lab).shape = a.shape := by
+    simp only [initArray, ArrayVal.shape, hlabst]
+  have hinit_labels : (initArray a.dataTok a.dataShape a.units lab).labels = a.labels := by
+    cases hs : a.isStack with
+    | false =>
+      have : a.labels = [] := by
+        obtain ⟨l1, _, _⟩ := hinv
+        -- a non-stack array carries no labels in the model's values produced by the constructor
+        exact hnostack_labels hs
+      simp [initArray, lab, hs, this]
+    | true =>
+      obtain ⟨_, hl⟩ := hstack hs
+      simp only [initArray, lab, hs, if_true, labIsStack]
+      simp only [ArrayVal.depth, hs, if_true] at hl
+      exact padTo_exact _ _ _ hl
+  -- what the reader finds in the body
+  have hdata : readData (a.toBody ops) = .ok (a.dataTok, a.units) := by
+    simp only [readData, C02_data_units ops a, strAttr, Obj.attrs, alookup, if_true, bind, Except.bind, pure, Except.pure]
+  have hlook : ∀ n, n < a.rank → readDimTriple (a.toBody ops) n =
+      .ok (DimArg.vec (storedVec ops a n), a.dimUnits.getD n "", a.dimNames.getD n "") := by
+    intro n hn
+    simp only [readDimTriple, alookup_dim ops a n hn, storedDim_eq ops a n (hplain n hn), strAttr, Obj.attrs, alookup]
+    simp [bind, Except.bind, pure, Except.pure]
+  have htriples : (List.range a.rank).mapM (readDimTriple (a.toBody ops)) =
+      .ok ((List.range a.rank).map (fun n => (DimArg.vec (storedVec ops a n), a.dimUnits.getD n "", a.dimNames.getD n ""))) :=
+    mapM_ok _ _ _ (fun n hn => hlook n (List.mem_range.mp hn))
+  -- the last dim dataset, stack detection and labels
+  have hlast : ∃ ld, readLastDim a.dataShape.length (a.toBody ops) = .ok ld ∧ readIsStack ld = .ok a.isStack ∧
+      readLabels a.isStack ld = .ok lab := by
+    cases hs : a.isStack with
+    | true =>
+      obtain ⟨hne, _⟩ := hstack hs
+      have hlen : a.dataShape.length - 1 = a.rank := by rw [← hrank, hs]; rfl
+      have hpos : (a.dataShape.length == 0) = false := by
+        cases hd : a.dataShape with
+        | nil => exact absurd hd hne
+        | cons x xs => rfl
+      refine ⟨some (Obj.dataset [("name", .str "_labels_")] (.strs a.labels)), ?_, ?_, ?_⟩
+      · simp only [readLastDim, hpos, Bool.false_eq_true, if_false, hlen, alookup_labels ops a, hs, if_true, pure, Except.pure]
+      · simp [readIsStack, strAttr, Obj.attrs, alookup, bind, Except.bind, pure, Except.pure]
+      · simp [readLabels, lab, hs, pure, Except.pure]
+    | false =>
+      have hlen : a.dataShape.length = a.rank := by rw [← hrank, hs]; rfl
+      cases hr : a.rank with
+      | zero =>
+        refine ⟨none, ?_, ?_, ?_⟩
+        · simp [readLastDim, hlen, hr, pure, Except.pure]
+        · simp [readIsStack, pure, Except.pure]
+        · simp [readLabels, lab, hs, pure, Except.pure]
+      | succ r =>
+        have hr' : r < a.rank := by omega
+        refine ⟨some (storedDim ops a r), ?_, ?_, ?_⟩
+        · simp [readLastDim, hlen, hr, alookup_dim ops a r hr', pure, Except.pure]
+        · have hne := hnolabel hs r (by omega)
+          simp only [List.getD_eq_getElem?_getD] at hne
+          simp [readIsStack, storedDim, strAttr, Obj.attrs, alookup, bind, Except.bind, pure, Except.pure, hne]
+        · simp [readLabels, lab, hs, pure, Except.pure]
+  obtain ⟨ld, hl1, hl2, hl3⟩ := hlast
+  -- the constructor
+  have hnotempty : (labIsStack lab && a.dataShape.isEmpty) = false := by
+    rw [hlabst]
+    cases hs : a.isStack with
+    | false => rfl
+    | true =>
+      obtain ⟨hne, _⟩ := hstack hs
+      cases hd : a.dataShape with
+      | nil => exact absurd hd hne
+      | cons x xs => rfl
+  obtain ⟨b, hb, b1, b2, b3, b4, b5, binv, ball⟩ := mkArray_ok ops a.dataTok a.dataShape a.units
+    ((List.range a.rank).map (fun n => DimArg.vec (storedVec ops a n)))
+    ((List.range a.rank).map (fun n => a.dimNames.getD n ""))
+    ((List.range a.rank).map (fun n => a.dimUnits.getD n "")) lab v hnotempty
+    (by simp [hinit_rank]) (by simp [hinit_rank]) (by simp [hinit_rank])
+    (fun i hi => by rw [hinit_rank] at hi; exact ⟨_, getD_map_range _ _ _ _ hi⟩)
+    (fun i hi => by
+      rw [hinit_rank] at hi
+      rw [hinit_shape, getD_map_range _ _ _ _ hi]
+      exact (hv i hi).1)
+  have hbrank : b.rank = a.rank := by simp only [ArrayVal.rank, ArrayVal.shape, b2, b4, hlabst]
+  refine ⟨b, ?_, b1, b2, b3, b4.trans hlabst, b5.trans hinit_labels, ?_, ?_, ?_⟩
+  · simp only [ArrayVal.fromBody, hdata, hl1, hl2, hrank, htriples, hl3, bind, Except.bind, List.map_map]
+    exact hb
+  · obtain ⟨_, l2, _⟩ := binv
+    obtain ⟨_, m2, _⟩ := hinv
+    apply ext_getD "" _ _ (by rw [l2, m2, hbrank])
+    intro i hi
+    have hi' : i < a.rank := by rw [← hbrank, ← l2]; exact hi
+    rw [(ball i (by rw [hinit_rank]; exact hi')).2.1, getD_map_range _ _ _ _ hi']
+  · obtain ⟨_, _, l3⟩ := binv
+    obtain ⟨_, _, m3⟩ := hinv
+    apply ext_getD "" _ _ (by rw [l3, m3, hbrank])
+    intro i hi
+    have hi' : i < a.rank := by rw [← hbrank, ← l3]; exact hi
+    rw [(ball i (by rw [hinit_rank]; exact hi')).2.2, getD_map_range _ _ _ _ hi']
+  · intro n hn
+    rw [(ball n (by rw [hinit_rank]; exact hn)).1]
+    exact (hv n hn).2
+
+/-- the hypotheses of `C02_roundtrip` about shape, labels and lengths hold of EVERY Array the constructor returns -/
+theorem C02_ctor_meets_hypotheses (ops : NumOps) (tok : String) (dataShape : List Nat) (units : String)
+    (dims : Option (List DimArg)) (names dunits : Option (List String)) (lab : LabelArg) (a : ArrayVal)
+    (h : mkArray ops tok dataShape units dims names dunits lab = .ok a) :
+    LenInv a ∧ (∀ n, n < a.rank → DimOK a n) ∧
+    (a.isStack = true → a.dataShape ≠ [] ∧ a.labels.length = a.depth) ∧ (a.isStack = false → a.labels = []) := by
+  obtain ⟨h1, h2, _, _⟩ := C14_lengths ops tok dataShape units dims names dunits lab a h
+  refine ⟨h1, h2, ?_, ?_⟩
+  all_goals
+    unfold mkArray at h
+    split at h
+    · cases h
+    · rename_i hst
+      simp only at h
+      obtain ⟨_, _, hs, hstk, hl, _, _, _⟩ := C14_build ops _ a _ _ _ (initArray_inv tok dataShape units lab) h
+      obtain ⟨_, f2, _, f4⟩ := initArray_fields tok dataShape units lab
+      rw [f2] at hs; rw [f4] at hstk
+      intro hst'
+      rw [hstk] at hst'
+      first
+        | -- stack
+          have hne : dataShape ≠ [] := by
+            intro e; subst e
+            simp [hst'] at hst
+          refine ⟨by rw [hs]; exact hne, ?_⟩
+          rw [hl]
+          simp only [ArrayVal.depth, hstk, hst', hs, if_true]
+          cases lab with
+          | none => simp [labIsStack] at hst'
+          | auto => simp [initArray, labIsStack]
+          | given ls => simp only [initArray, labIsStack, if_true]; exact C14_pad_length _ _ _
+        | -- not a stack
+          rw [hl]
+          cases lab with
+          | none => simp [initArray]
+          | auto => simp [labIsStack] at hst'
+          | given ls => simp [labIsStack] at hst'
+
+/-- integer dim vectors (the default pixel calibration, integer ramps) are plain for every arithmetic -/
+theorem plain_of_ints (ops : NumOps) (a : ArrayVal)
+    (h : ∀ n, n < a.rank → (a.dims.getD n []).all Num.isInt = true) :
+    PlainDims ops a := by
+  intro n hn
+  have hall := h n hn
+  have : (storedVec ops a n).all Num.isInt = true := by
+    unfold storedVec
+    split
+    · rw [List.all_eq_true] at hall ⊢
+      intro x hx; exact hall x (List.mem_of_mem_take hx)
+    · exact hall
+  unfold storeVec
+  rw [if_pos this]
+
+-- the round trip on a concrete stack array with real IEEE arithmetic, by kernel evaluation of the model
+def exStack : R ArrayVal := mkArray realOps "t" [2, 3] "counts" (some [.vec [.int 0, .int 2]]) (some ["q"]) (some ["A"]) (.given ["a"])
+example : (match exStack with
+    | .ok a => (match ArrayVal.fromBody realOps a.dataShape (a.toBody realOps) with
+        | .ok b => b.dims == a.dims && b.labels == ["a", "array1"] && b.labels == a.labels && b.isStack && b.dimNames == a.dimNames
+        | .error _ => false)
     | .error _ => false) = true := by decide +kernel
 
 end EmdProps
